@@ -75,7 +75,7 @@ theorem sendEvents_self_pending (s : Cfg) (c : Conn) : (sendEvents s c).pending 
   unfold sendEvents; split <;> (try split) <;> simp_all
 
 /-- The steps of the loop thread only consume its program. -/
-theorem stepLoop_lops_sub (fix : Bool) (s : Cfg) : ∀ op ∈ (stepLoop fix s).1.lops, op ∈ s.lops := by
+theorem stepLoop_lops_sub (fix : Variant) (s : Cfg) : ∀ op ∈ (stepLoop fix s).1.lops, op ∈ s.lops := by
   unfold stepLoop
   split
   · split
@@ -84,7 +84,7 @@ theorem stepLoop_lops_sub (fix : Bool) (s : Cfg) : ∀ op ∈ (stepLoop fix s).1
       have hr : ∀ o ∈ rest, o ∈ s.lops := by
         intro o ho; rw [hl]; exact List.mem_cons_of_mem _ ho
       cases op <;> simp only [] <;> (try split) <;> (try split) <;> simpa using hr
-  all_goals (try split) <;> simp [ret]
+  all_goals (try split) <;> (try split) <;> simp [ret]
 
 theorem stepWorker_lops (s : Cfg) : (stepWorker s).1.lops = s.lops := by
   unfold stepWorker
@@ -94,7 +94,7 @@ theorem stepWorker_lops (s : Cfg) : (stepWorker s).1.lops = s.lops := by
     · split <;> rfl
   all_goals (try split) <;> rfl
 
-theorem noWrite_step (fix b : Bool) (s : Cfg) (h : NoWrite s.lops) : NoWrite (step fix b s).lops := by
+theorem noWrite_step (fix : Variant) (b : Bool) (s : Cfg) (h : NoWrite s.lops) : NoWrite (step fix b s).lops := by
   unfold step
   split
   · exact fun op ho => h op (stepLoop_lops_sub fix s op ho)
@@ -109,7 +109,7 @@ theorem not_atWrite_of_noWrite (s : Cfg) (h : NoWrite s.lops) : ¬ AtWrite s := 
     | write w v => exact h (.write w v) (by rw [hl]; exact List.mem_cons_self) w v rfl
     | _ => rw [hl] at hw; simp [headIsWrite] at hw
 
-theorem serial_of_noWrite (fix : Bool) (bits : List Bool) (s : Cfg) (h : NoWrite s.lops) :
+theorem serial_of_noWrite (fix : Variant) (bits : List Bool) (s : Cfg) (h : NoWrite s.lops) :
     Serial fix bits s := by
   induction bits generalizing s with
   | nil => trivial
@@ -138,7 +138,7 @@ def CacheInv (s : Cfg) : Prop :=
   (∀ r, s.lpc = .hRecheck r → s.cacheV = none ∨ s.cacheV = some r) ∧
   (Fresh s ∨ WorkerWillClear s ∨ LoopWillCheck s)
 
-theorem cacheInv_stepLoop (s : Cfg) (h : CacheInv s) : CacheInv (stepLoop true s).1 := by
+theorem cacheInv_stepLoop (sg : Bool) (s : Cfg) (h : CacheInv s) : CacheInv (stepLoop ⟨true, sg⟩ s).1 := by
   obtain ⟨h1, h2⟩ := h
   unfold stepLoop
   split
@@ -153,7 +153,7 @@ theorem cacheInv_stepLoop (s : Cfg) (h : CacheInv s) : CacheInv (stepLoop true s
         · simp_all [LoopWillCheck]
       cases op <;> simp only [] <;> (try split) <;> (try split) <;>
         simp_all [CacheInv, Fresh, WorkerWillClear, LoopWillCheck]
-  all_goals (try split) <;>
+  all_goals (try split) <;> (try split) <;>
     simp_all [CacheInv, Fresh, WorkerWillClear, LoopWillCheck, ret] <;> grind
 
 theorem cacheInv_stepWorker (s : Cfg) (h : CacheInv s) : CacheInv (stepWorker s).1 := by
@@ -166,14 +166,15 @@ theorem cacheInv_stepWorker (s : Cfg) (h : CacheInv s) : CacheInv (stepWorker s)
   all_goals (try split) <;>
     simp_all [CacheInv, Fresh, WorkerWillClear, LoopWillCheck] <;> grind
 
-theorem cacheInv_run (bits : List Bool) (s : Cfg) (h : CacheInv s) : CacheInv (run true bits s) := by
+theorem cacheInv_run (sg : Bool) (bits : List Bool) (s : Cfg) (h : CacheInv s) :
+    CacheInv (run ⟨true, sg⟩ bits s) := by
   induction bits generalizing s with
   | nil => exact h
   | cons b bs ih =>
     apply ih
     unfold step
     split
-    · exact cacheInv_stepLoop s h
+    · exact cacheInv_stepLoop sg s h
     · exact cacheInv_stepWorker s h
 
 theorem cacheInv_of_quiet_fresh (s : Cfg) (hq : Quiet s) (hf : Fresh s) : CacheInv s := by
@@ -189,7 +190,7 @@ def target (s : Cfg) : Obj :=
   | .wAssign o _ => lastValid o s.wups
   | _ => lastValid s.value s.wups
 
-theorem target_stepLoop (fix : Bool) (s : Cfg) (hn : NoWrite s.lops) :
+theorem target_stepLoop (fix : Variant) (s : Cfg) (hn : NoWrite s.lops) :
     target (stepLoop fix s).1 = target s := by
   unfold stepLoop
   split
@@ -199,7 +200,7 @@ theorem target_stepLoop (fix : Bool) (s : Cfg) (hn : NoWrite s.lops) :
       cases op with
       | write w v => exact absurd rfl (hn (.write w v) (by rw [hl]; exact List.mem_cons_self) w v)
       | _ => simp only [] <;> (try split) <;> (try split) <;> simp_all [target]
-  all_goals (try split) <;> simp_all [target, ret]
+  all_goals (try split) <;> (try split) <;> simp_all [target, ret]
 
 theorem target_stepWorker (s : Cfg) : target (stepWorker s).1 = target s := by
   unfold stepWorker
@@ -209,7 +210,7 @@ theorem target_stepWorker (s : Cfg) : target (stepWorker s).1 = target s := by
     · split <;> simp_all [target, lastValid]
   all_goals (try split) <;> simp_all [target] <;> (try split) <;> simp_all
 
-theorem target_run (fix : Bool) (bits : List Bool) (s : Cfg) (hn : NoWrite s.lops) :
+theorem target_run (fix : Variant) (bits : List Bool) (s : Cfg) (hn : NoWrite s.lops) :
     target (run fix bits s) = target s := by
   induction bits generalizing s with
   | nil => rfl
@@ -323,7 +324,7 @@ def WClause (w : WPc) (v lat : Obj) : Prop :=
     flush, and its pipeline ends in the current value or the worker is inside an update that will
     still enqueue it. -/
 def EvInv (c : Conn) (s : Cfg) : Prop :=
-  s.topicKey = true ∧ c ∈ s.subs ∧ (∀ op ∈ s.lops, op ≠ LoopOp.unsub c) ∧
+  s.topicKey = true ∧ c ∈ s.subs ∧ (∀ op ∈ s.lops, op ≠ LoopOp.unsub c ∧ op ≠ LoopOp.lost c) ∧
   s.lpc ≠ .uKey ∧ (∀ c', s.lpc ≠ .sKey c') ∧
   (s.pending c ≠ none → s.timer c = true) ∧
   WClause s.wpc s.value (latest c s)
@@ -395,7 +396,7 @@ theorem evInv_stepWorker (c : Conn) (s : Cfg) (h : EvInv c s) :
     show (latest c _).val = s.value.val
     rw [latest_push c _ s d rfl, a7]
 
-theorem evInv_stepLoop (fix : Bool) (c : Conn) (s : Cfg) (h : EvInv c s)
+theorem evInv_stepLoop (fix : Variant) (c : Conn) (s : Cfg) (h : EvInv c s)
     (hg : AtWrite s → s.wpc = .idle ∧ s.queue = []) :
     EvInv c (stepLoop fix s).1 := by
   have h0 := h
@@ -434,7 +435,26 @@ theorem evInv_stepLoop (fix : Bool) (c : Conn) (s : Cfg) (h : EvInv c s)
       | unsub c' =>
         have hne : c' ≠ c := by
           intro e; subst e
-          exact a3 (.unsub c') (by rw [hl]; exact List.mem_cons_self) rfl
+          exact (a3 (.unsub c') (by rw [hl]; exact List.mem_cons_self)).1 rfl
+        have hcc' : c ≠ c' := fun e => hne e.symm
+        have hmem : c ∈ s.subs.erase c' := (List.mem_erase_of_ne (Ne.symm hne)).mpr a2
+        have hnon : (s.subs.erase c').isEmpty = false := by
+          cases hh : s.subs.erase c' with
+          | nil => rw [hh] at hmem; simp at hmem
+          | cons _ _ => rfl
+        simp only []
+        split
+        · split
+          · rename_i he
+            have he' : (s.subs.erase c').isEmpty = true := he
+            rw [hnon] at he'; exact absurd he' (by simp)
+          · exact evInv_frame c s _ h0 a1 hmem hrest a4 a5 (by simpa [hcc'] using a6) rfl rfl
+              (latest_congr c _ s rfl (by simp [hcc']) rfl)
+        · rename_i hk; exact absurd a1 hk
+      | lost c' =>
+        have hne : c' ≠ c := by
+          intro e; subst e
+          exact (a3 (.lost c') (by rw [hl]; exact List.mem_cons_self)).2 rfl
         have hcc' : c ≠ c' := fun e => hne e.symm
         have hmem : c ∈ s.subs.erase c' := (List.mem_erase_of_ne (Ne.symm hne)).mpr a2
         have hnon : (s.subs.erase c').isEmpty = false := by
@@ -499,7 +519,9 @@ theorem evInv_stepLoop (fix : Bool) (c : Conn) (s : Cfg) (h : EvInv c s)
           rw [gw]
           exact latest_ctrlWrite c w v { s with lops := rest } gq a2 a7
   · -- hCheck
-    split <;> exact keep _ rfl rfl rfl (by simp) (by simp) rfl rfl rfl rfl rfl rfl
+    split
+    · split <;> exact keep _ rfl rfl rfl (by simp [ret]) (by simp [ret]) rfl rfl rfl rfl rfl rfl
+    · exact keep _ rfl rfl rfl (by simp) (by simp) rfl rfl rfl rfl rfl rfl
   · exact keep _ rfl rfl rfl (by simp [ret]) (by simp [ret]) rfl rfl rfl rfl rfl rfl
   · exact keep _ rfl rfl rfl (by simp) (by simp) rfl rfl rfl rfl rfl rfl
   · split
@@ -509,7 +531,10 @@ theorem evInv_stepLoop (fix : Bool) (c : Conn) (s : Cfg) (h : EvInv c s)
     · exact keep _ rfl rfl rfl (by simp [ret]) (by simp [ret]) rfl rfl rfl rfl rfl rfl
     · exact keep _ rfl rfl rfl (by simp) (by simp) rfl rfl rfl rfl rfl rfl
   · exact keep _ rfl rfl rfl (by simp [ret]) (by simp [ret]) rfl rfl rfl rfl rfl rfl
-  · split <;> exact keep _ rfl rfl rfl (by simp) (by simp) rfl rfl rfl rfl rfl rfl
+  · -- nCheck
+    split
+    · split <;> exact keep _ rfl rfl rfl (by simp [ret]) (by simp [ret]) rfl rfl rfl rfl rfl rfl
+    · exact keep _ rfl rfl rfl (by simp) (by simp) rfl rfl rfl rfl rfl rfl
   · exact keep _ rfl rfl rfl (by simp [ret]) (by simp [ret]) rfl rfl rfl rfl rfl rfl
   · exact keep _ rfl rfl rfl (by simp [ret]) (by simp [ret]) rfl rfl rfl rfl rfl rfl
   · exact keep _ rfl rfl rfl (by simp [ret]) (by simp [ret]) rfl rfl rfl rfl rfl rfl
@@ -527,7 +552,7 @@ theorem evInv_stepLoop (fix : Bool) (c : Conn) (s : Cfg) (h : EvInv c s)
       exact evInv_frame c s _ h0 a1 a2 (fun _ h => h) a4 a5 (by simp [a2]) rfl rfl
         (latest_pop c _ s d q hq rfl (by simp [a2]))
 
-theorem evInv_run (fix : Bool) (c : Conn) (bits : List Bool) (s : Cfg)
+theorem evInv_run (fix : Variant) (c : Conn) (bits : List Bool) (s : Cfg)
     (h : EvInv c s) (hs : Serial fix bits s) : EvInv c (run fix bits s) := by
   induction bits generalizing s with
   | nil => exact h
@@ -553,7 +578,7 @@ def owed (s : Cfg) : List Obj :=
   | .wTopic d => [d] ++ changes d s.wups
   | .wEnq d => [d] ++ changes d s.wups
 
-theorem owed_stepLoop (fix : Bool) (s : Cfg) (hn : NoWrite s.lops) :
+theorem owed_stepLoop (fix : Variant) (s : Cfg) (hn : NoWrite s.lops) :
     (stepLoop fix s).1.enq = s.enq ∧ owed (stepLoop fix s).1 = owed s := by
   unfold stepLoop
   split
@@ -563,7 +588,7 @@ theorem owed_stepLoop (fix : Bool) (s : Cfg) (hn : NoWrite s.lops) :
       cases op with
       | write w v => exact absurd rfl (hn (.write w v) (by rw [hl]; exact List.mem_cons_self) w v)
       | _ => simp only [] <;> (try split) <;> (try split) <;> simp_all [owed]
-  all_goals (try split) <;> simp_all [owed, ret]
+  all_goals (try split) <;> (try split) <;> simp_all [owed, ret]
 
 theorem owed_stepWorker (c : Conn) (s : Cfg) (h : EvInv c s) :
     (stepWorker s).1.enq ++ owed (stepWorker s).1 = s.enq ++ owed s := by
@@ -597,7 +622,7 @@ theorem owed_stepWorker (c : Conn) (s : Cfg) (h : EvInv c s) :
     have hv : d = s.value := a7
     simp [owed, hw, hv]
 
-theorem handoff_run (fix : Bool) (c : Conn) (bits : List Bool) (s : Cfg)
+theorem handoff_run (fix : Variant) (c : Conn) (bits : List Bool) (s : Cfg)
     (h : EvInv c s) (hn : NoWrite s.lops) :
     (run fix bits s).enq ++ owed (run fix bits s) = s.enq ++ owed s := by
   induction bits generalizing s with
@@ -632,7 +657,7 @@ theorem sendEvents_knows (c c' : Conn) (k0 : Obj) (s : Cfg) (h : KnowsInv c k0 s
       · simp [hcc, h]
     · exact h
 
-theorem knows_stepLoop (fix : Bool) (c : Conn) (k0 : Obj) (s : Cfg)
+theorem knows_stepLoop (fix : Variant) (c : Conn) (k0 : Obj) (s : Cfg)
     (hn : ∀ op ∈ s.lops, ∀ v, op ≠ LoopOp.write c v) (h : KnowsInv c k0 s) :
     KnowsInv c k0 (stepLoop fix s).1 := by
   unfold stepLoop
@@ -653,7 +678,7 @@ theorem knows_stepLoop (fix : Bool) (c : Conn) (k0 : Obj) (s : Cfg)
           exact hn (.write c v) (by rw [hl]; exact List.mem_cons_self) v rfl
         simpa [KnowsInv, ctrlWrite, hw] using h
       | _ => simp only [] <;> (try split) <;> (try split) <;> exact h
-  all_goals (try split) <;> exact h
+  all_goals (try split) <;> (try split) <;> exact h
 
 theorem knows_stepWorker (c : Conn) (k0 : Obj) (s : Cfg) (h : KnowsInv c k0 s) :
     KnowsInv c k0 (stepWorker s).1 := by
@@ -664,7 +689,7 @@ theorem knows_stepWorker (c : Conn) (k0 : Obj) (s : Cfg) (h : KnowsInv c k0 s) :
     · split <;> exact h
   all_goals (try split) <;> exact h
 
-theorem knows_run (fix : Bool) (c : Conn) (k0 : Obj) (bits : List Bool) (s : Cfg)
+theorem knows_run (fix : Variant) (c : Conn) (k0 : Obj) (bits : List Bool) (s : Cfg)
     (hn : ∀ op ∈ s.lops, ∀ v, op ≠ LoopOp.write c v) (h : KnowsInv c k0 s) :
     KnowsInv c k0 (run fix bits s) := by
   induction bits generalizing s with
@@ -677,5 +702,41 @@ theorem knows_run (fix : Bool) (c : Conn) (k0 : Obj) (bits : List Bool) (s : Cfg
     · unfold step; split
       · exact knows_stepLoop fix c k0 s hn h
       · exact knows_stepWorker c k0 s h
+
+/-! ## 6. A read never returns nothing (single-read early return) -/
+
+def NoNothing (s : Cfg) : Prop :=
+  (∀ r ∈ s.results, r ≠ Res.nothing) ∧ s.lpc ≠ .hRet ∧ s.lpc ≠ .nRet
+
+theorem noNothing_stepLoop (rc : Bool) (s : Cfg) (h : NoNothing s) :
+    NoNothing (stepLoop ⟨rc, true⟩ s).1 := by
+  obtain ⟨h1, h2, h3⟩ := h
+  unfold stepLoop
+  split
+  · split
+    · exact ⟨h1, h2, h3⟩
+    · rename_i op rest hl
+      cases op <;> simp only [] <;> (try split) <;> (try split) <;>
+        simp_all [NoNothing, sendEvents_results, sendEvents_lpc]
+  all_goals (try split) <;> (try split) <;> simp_all [NoNothing, ret] <;> grind
+
+theorem noNothing_stepWorker (s : Cfg) (h : NoNothing s) : NoNothing (stepWorker s).1 := by
+  unfold stepWorker
+  split
+  · split
+    · exact h
+    · split <;> exact h
+  all_goals (try split) <;> exact h
+
+theorem noNothing_run (rc : Bool) (bits : List Bool) (s : Cfg) (h : NoNothing s) :
+    NoNothing (run ⟨rc, true⟩ bits s) := by
+  induction bits generalizing s with
+  | nil => exact h
+  | cons b bs ih =>
+    apply ih
+    unfold step
+    split
+    · exact noNothing_stepLoop rc s h
+    · exact noNothing_stepWorker s h
 
 end Hap.Race
